@@ -173,6 +173,14 @@ func (c *Ctx) parallelWorker(n int, fn func(i int)) int {
 	defer f.Close()
 	done := 0
 	buf := make([]byte, 32)
+	// items are claimed in small batches so that cheap items do not pay one flock round trip each
+	batch := n / (c.nshards * 64)
+	if batch < 1 {
+		batch = 1
+	}
+	if batch > 64 {
+		batch = 64
+	}
 	for {
 		if c.OutOfBudget() {
 			return done
@@ -183,15 +191,24 @@ func (c *Ctx) parallelWorker(n int, fn func(i int)) int {
 		if k > 0 {
 			cur, _ = strconv.Atoi(strings.TrimSpace(string(buf[:k])))
 		}
+		end := cur + batch
+		if end > n {
+			end = n
+		}
 		if cur < n {
-			f.WriteAt([]byte(fmt.Sprintf("%-20d", cur+1)), 0)
+			f.WriteAt([]byte(fmt.Sprintf("%-20d", end)), 0)
 		}
 		syscall.Flock(int(f.Fd()), syscall.LOCK_UN)
 		if cur >= n {
 			return done
 		}
-		fn(cur)
-		done++
+		for i := cur; i < end; i++ {
+			if c.OutOfBudget() {
+				return done
+			}
+			fn(i)
+			done++
+		}
 	}
 }
 
